@@ -38,14 +38,19 @@ var wanted = []struct {
 	{"pkg/console/console.go", "console", []string{"Send", "SendCmd", "IssueCmd", "GetCmdOutput", "GetOutput",
 		"waitPrompt", "WaitShort", "WaitLogin", "expectLog", "StripEcho", "StripStdPrompt", "Close"}},
 	{"pkg/errlog/abort.go", "errlog", []string{"HandleAbort", "Abort"}},
-	{"pkg/asa/device.go", "asa", []string{"ApplyCommands", "cmd", "cmd$check", "CloseConnection"}},
+	{"pkg/cisco/device.go", "cisco", []string{"LoginEnable", "LoginEnable$waitPrompt"}},
+	{"pkg/httpdevice/device.go", "httpdevice", []string{"TryReachableHTTPLogin"}},
+	{"pkg/asa/device.go", "asa", []string{"ApplyCommands", "cmd", "cmd$check", "CloseConnection",
+		"LoadDevice", "setTerminal", "logVersion", "checkDeviceName"}},
 	{"pkg/ios/device.go", "ios", []string{"ApplyCommands", "cmd", "cmd$check", "writeMem", "prepareDevice",
-		"scheduleReload", "extendReload", "sendReloadCmd", "cancelReload", "CloseConnection"}},
+		"scheduleReload", "extendReload", "sendReloadCmd", "cancelReload", "CloseConnection",
+		"LoadDevice", "setTerminal", "logVersion", "checkDeviceName"}},
 	{"pkg/linux/device.go", "linux", []string{"ApplyCommands", "cmd", "cmd$check", "writeStartupRouting",
-		"writeStartupIPTables", "findIPTablesRestoreCmd", "writeStartup", "putScp", "CloseConnection"}},
+		"writeStartupIPTables", "findIPTablesRestoreCmd", "writeStartup", "putScp", "CloseConnection",
+		"LoadDevice", "loginEnable", "logVersion", "checkDeviceName", "checkBanner", "getDeviceRoutes", "getDeviceIPTables"}},
 	{"pkg/panos/device.go", "panos", []string{"ApplyCommands", "ApplyCommands$doCmd", "ApplyCommands$commit",
-		"httpPrefixGetLog", "httpGet", "CloseConnection"}},
-	{"pkg/nsx/device.go", "nsx", []string{"ApplyCommands", "sendRequest", "CloseConnection"}},
+		"httpPrefixGetLog", "httpGet", "CloseConnection", "LoadDevice", "getAPIKey", "checkHA"}},
+	{"pkg/nsx/device.go", "nsx", []string{"ApplyCommands", "sendRequest", "CloseConnection", "LoadDevice", "getRawJSON"}},
 	{"pkg/device/main.go", "device", []string{"ApproveOrCompare", "approve", "compare", "compareDevice", "applyCommands", "showCompareInfo"}},
 	{"pkg/doapprove/main.go", "doapprove", []string{"Main"}},
 	{"pkg/status/status.go", "status", []string{"SetApprove", "SetCompare"}},
@@ -65,6 +70,9 @@ func init() {
 	CloseConnection showCompareInfo ApproveOrCompare getRealDevice SetStderrLog getLogFH
 	SetApprove SetCompare logHistory abort ReadFile SetLock openHistoryLog LoadConfig EvalSymlinks fileExists Read write
 	recover panic
+	LoginEnable loginEnable setTerminal logVersion checkDeviceName checkBanner getDeviceRoutes getDeviceIPTables
+	TryReachableHTTPLogin login getAPIKey parseAPIKey checkHA parseResponseConfig getRawJSON ParseConfig
+	GetSSHConn GetUserPass parseIPTables parseRoutes
 	`) {
 		interesting[n] = true
 	}
@@ -484,7 +492,16 @@ func main() {
 			}
 		}
 	}
-	fmt.Fprintf(&b, "def allNames : List String := %s\n\nend NA.Gen.Skel\n", leanList(names))
+	fmt.Fprintf(&b, "def allNames : List String := %s\n\n", leanList(names))
+	b.WriteString("/-- every generated skeleton with its name -/\ndef all : List (String × List Site) := [\n")
+	for i, n := range names {
+		sep := ","
+		if i == len(names)-1 {
+			sep = ""
+		}
+		fmt.Fprintf(&b, "  (%s, %s)%s\n", leanStr(n), n, sep)
+	}
+	b.WriteString("]\n\nend NA.Gen.Skel\n")
 	if *out == "" {
 		fmt.Print(b.String())
 		return
